@@ -261,6 +261,51 @@ def run(ctx):
                 seq.append(hit[0] if hit else "?" + row[:20])
             ctx.check(seq == aliases[cast], "layout", "%s.%s|doc" % (cls, gname), ctx.loc(f), "documented field order %s equals the tuple layout" % seq,
                       "documented field order %s differs from the tuple layout %s" % (seq, aliases[cast]))
+    # ---------------------------------------------------------------- whole lists, pair getters, constructors, numpy sibling
+    RESTRICT = ("skip", "take", "filter", "step_by", "rev", "skip_while", "take_while", "filter_map", "chain", "nth", "last", "dedup", "truncate", "pop", "remove", "drain")
+    for cls, meths in (("OrderBook", ob), ("StepEnv", se)):
+        for gname in ("get_trades", "get_orders"):
+            f = meths.get(gname)
+            if f is None:
+                continue
+            bad = [c.name for c in m.q(f).calls() if c.name in RESTRICT]
+            ctx.check(not bad, "layout", "%s.%s|whole-list" % (cls, gname), ctx.loc(f), "%s.%s returns every record of the core list, in order" % (cls, gname),
+                      "%s.%s passes the core list through %s: records are dropped or reordered" % (cls, gname, bad))
+    for gname in ("get_prices", "get_volumes", "get_touch_volumes", "get_touch_order_counts"):
+        f = se.get(gname)
+        if f is None:
+            ctx.lost("qualifier", "StepEnv." + gname)
+            continue
+        r = m.q(f).ret()
+        ok = r[0] == "agg" and r[1] == "tuple" and len(r[3]) == 2
+        if ok:
+            for k, e in enumerate(r[3]):
+                src = [x for x in walk(e) if x[0] == "field" and x[2] in ("0", "1") and x[1][0] == "call" and x[1][4] == gname and fld(x[1][2][0], "env")]
+                ok = ok and len(src) == 1 and src[0][2] == str(k)
+        ctx.check(ok, "qualifier", "StepEnv." + gname, ctx.loc(f), "StepEnv.%s = (bid, ask) halves of Env::%s in that order" % (gname, gname), "StepEnv.%s returns %s" % (gname, render(r)[:160]))
+    f = se.get("get_trade_volumes")
+    if f is not None:
+        r = m.q(f).ret()
+        ok = any(x[0] == "call" and x[4] == "get_trade_vols" and fld(x[2][0], "env") for x in walk(r))
+        ctx.check(ok, "qualifier", "StepEnv.get_trade_volumes", ctx.loc(f), "StepEnv.get_trade_volumes = Env::get_trade_vols()", "get_trade_volumes returns %s" % render(r)[:120])
+    for cls, meths, core_owner in (("OrderBook", ob, "OrderBook"), ("StepEnv", se, "Env"), ("StepEnvNumpy", pymethods(ctx, "StepEnvNumpy"), "Env")):
+        f = meths.get("new")
+        if f is None:
+            ctx.lost("forward", cls + ".new")
+            continue
+        q = m.q(f)
+        cs = [c for c in q.calls("new") if c.target is not None and c.target.crate.name in ("bourse_book", "bourse_de")]
+        ok = len(cs) == 1 and not cs[0].guards and all(a[0] == "param" and a[2] == formal for a, formal in zip(cs[0].args, cs[0].formals))
+        ctx.check(ok, "forward", cls + ".new|args", ctx.loc(f), "%s.new passes %s to the core constructor unchanged" % (cls, ", ".join(cs[0].formals) if cs else "?"),
+                  "%s.new constructs the core object with %s" % (cls, [c.text()[:100] for c in cs]))
+    # StepEnvNumpy shares enable/disable/step/get_orders/get_trades with StepEnv: the siblings must forward identically
+    sn = pymethods(ctx, "StepEnvNumpy")
+    for name in sorted(set(se) & set(sn) - {"new", "get_market_data"}):
+        def abstr(f):
+            return [(c.name, tuple(render(a) for a in c.args), tuple(sorted(repr(g) for g in c.guards))) for c in m.q(f).calls() if c.target is not None or c.name in ("map", "collect", "iter", "into_iter") or c.name in RESTRICT]
+        a, b = abstr(se[name]), abstr(sn[name])
+        ctx.check(a == b and bool(a), "sibling", "StepEnvNumpy." + name, ctx.loc(sn[name]), "StepEnvNumpy.%s forwards exactly like StepEnv.%s (%s)" % (name, name, [x[0] for x in a]),
+                  "StepEnvNumpy.%s does %s but StepEnv.%s does %s" % (name, [x[0] for x in b], name, [x[0] for x in a]))
     # ---------------------------------------------------------------- parameter types
     for cls, meths in (("OrderBook", ob), ("StepEnv", se)):
         for name, f in sorted(meths.items()):
